@@ -134,6 +134,11 @@ def r4_coercion(cx):
     ok = convs == {"retries": set(["int"]), "cmd_timeout": set(["int"]), "http_timeout": set(["float"])} and bad_store is None
     cx.require(ok, bad_store if bad_store is not None else env, "environment: retries, cmd_timeout -> int, http_timeout -> float", construct="%s" % sorted((k, sorted(v)) for k, v in convs.items()))
     fl = m.func("InsightsConfig._load_config_file", "C16.R4")
+    # the file layer must hand values over as written: a parser class with %-interpolation rejects (and thereby drops the whole file on) any value with a bare '%'
+    ctors = [x for x in ast.walk(fl) if isinstance(x, ast.Call) and U(x.func).split(".")[-1] in ("RawConfigParser", "ConfigParser", "SafeConfigParser")]
+    okp = bool(ctors) and all(U(x.func).split(".")[-1] == "RawConfigParser" or (kwarg(x, "interpolation") is not None and U(kwarg(x, "interpolation")) == "None") for x in ctors)
+    cx.require(okp, ctors[0] if ctors else fl, "the configuration file is read with a parser that does not interpolate '%' (RawConfigParser, or interpolation=None)",
+               construct=short(ctors[0]) if ctors else "(no parser constructed)")
     gi = [x for x in find_calls(fl.body, attr="getint")]
     gf = [x for x in find_calls(fl.body, attr="getfloat")]
     gb = [x for x in find_calls(fl.body, attr="getboolean")]
